@@ -2,6 +2,7 @@ package dpadv
 
 import (
 	"fmt"
+	"math/rand"
 	"net"
 	"net/netip"
 	"strconv"
@@ -40,7 +41,8 @@ type Env struct {
 	RouterIP netip.Addr
 	HostSrc  *net.UDPAddr // underlay address of the (malicious) local host
 	SCMPAuth bool
-	Detached bool // sibling links as detachedLink (the non-Linux flavour) instead of connectedLink
+	T0       time.Time // an instant after the router's processor has handled its first packet
+	Detached bool      // sibling links as detachedLink (the non-Linux flavour) instead of connectedLink
 	ifs      map[int]IfCfg
 	ias      map[string]addr.IA // overrides of the class -> IA mapping (neighbour routers)
 }
@@ -167,5 +169,14 @@ func newEnv(cfg Cfg, local addr.IA, master string, ias map[string]addr.IA, scmpA
 		return nil, err
 	}
 	e.V = v
+	// The processors are long-lived (one per goroutine in production): let this one handle a first
+	// packet, so that anything it wrongly keeps from packet to packet (cached clock readings, hop
+	// fields, flags) is in place before the scenarios start.
+	warm := &APkt{Kind: "scion", Via: 0, Src: "L", Dst: "F", Fault: "none", L4: "udp", Seg: []int{2},
+		Infos: []AInfo{{Cons: true}}, Hops: []AHop{{In: 0, Eg: 999, Vp: true}, {In: 999, Eg: 999}}, Ep: AEp{true, true, true}}
+	if raw, err := e.Build(warm, BuildOpts{Payload: 8, Rng: rand.New(rand.NewSource(1))}, time.Now()); err == nil {
+		e.V.Process(e.V.NewPacket(raw, 0, e.HostSrc))
+	}
+	e.T0 = time.Now()
 	return e, nil
 }
